@@ -1090,6 +1090,19 @@ def units(tier, seed):
     core("tri", 2, 2, False, "sa", "rdr", via="wrapper", cap=3, pin=1,
          wit=HOP)
 
+    # ---- the minimisation stage on a table larger than the menu's graphs
+    # put on one chip: C04's harness through minimise_tables (five entries
+    # with concrete masks, keys symbolic under them; every matched key keeps
+    # its route) -- second-round merges only happen on such tables
+    from harness import c04
+    us.append(Unit("minimisation stage, 5 entries on one chip (C04's "
+                   "harness through minimise_tables)", c04.h_min,
+                   dict(which="tables", n=5, W=5, routes="ABAAB",
+                        srcs="uuuuu", discipline="sorted", target="none",
+                        masks=(31, 21, 22, 19, 1)), split=8,
+                   witnesses=("returned", "shrunk"), path_timeout_s=300,
+                   timeout_ms=300000))
+
     # ---- the grid --------------------------------------------------------
     grid = []
     for graph in GRID_GRAPHS:
